@@ -23,7 +23,17 @@ impl Universe {
         let mut xonly = vec![];
         let mut keypairs = vec![];
         for i in 0..=MAX_KEYS {
-            let d = sha256::Hash::hash(format!("msverif key {}", i).as_bytes());
+            // ids 1, 2 are given key material whose compressed (33-byte) order and x-only order DISAGREE
+            // (and ids 3, 4 material that sorts against its listing order), so that the sorted
+            // multisig fragments over the smallest key sets already exercise both BIP67 orders
+            let label = match i {
+                1 => 16,
+                2 => 8,
+                8 => 2,
+                16 => 1,
+                x => x,
+            };
+            let d = sha256::Hash::hash(format!("msverif key {}", label).as_bytes());
             let sk = SecretKey::from_slice(d.as_byte_array()).expect("valid sk");
             let kp = Keypair::from_secret_key(&secp, &sk);
             sks.push(sk);
